@@ -1092,10 +1092,21 @@ func historyConfirm(prop, tier string, seed uint64, v *violationRec, owns func(r
 	if json.Unmarshal(b, &rf) != nil {
 		return false
 	}
+	// The worker executed some of its runs twice (the determinism self-check re-executes every
+	// 97th run, and worker 0 its first few, from the recorded tape): state that merely counts
+	// what the process has done - a slab cursor, a generation counter - only lines up again if
+	// the history repeats those too. An index listed twice is executed twice.
+	k0 := 0
+	for owns(k0) {
+		k0++
+	}
 	var hist []int
 	for i := 0; i < v.Run; i++ {
 		if owns(i) {
 			hist = append(hist, i)
+			if i%97 == 0 || i < 3*k0 {
+				hist = append(hist, i)
+			}
 		}
 	}
 	class := "CLASS " + v.Class
